@@ -14,12 +14,12 @@ from fractions import Fraction
 from vlib.coqlit import cnat, cz, cbool, clist, copt, cpair, cstr, cq, cjv
 
 ID = "SRC"
-COQ_PROPS = ["Props/SRC.v", "Props/SRCfilter.v", "Props/SRClookup.v", "Props/SRCvalid.v", "Props/SRCalg.v", "Props/SRCstate.v", "Props/SRCsubset.v", "Props/SRCsample.v", "Props/SRCgetsubset.v", "Props/SRCinsert.v"]
+COQ_PROPS = ["Props/SRC.v", "Props/SRCfilter.v", "Props/SRClookup.v", "Props/SRCvalid.v", "Props/SRCalg.v", "Props/SRCstate.v", "Props/SRCsubset.v", "Props/SRCsample.v", "Props/SRCgetsubset.v", "Props/SRCinsert.v", "Props/SRCinsertall.v", "Props/SRCfromseq.v", "Props/SRCtop.v"]
 THEOREMS = ["SRC_is_constant", "SRC_is_repeating", "SRC_class_names", "SRC_valid_classes", "SRC_class_valid", "SRC_multiplicity",
             "SRC_multiplicity_foreign", "SRC_const_period", "SRC_n_slices", "SRC_key_regex_filter", "SRC_make_key_regex_filter",
             "SRC_meta_valid", "SRC_get_meta", "SRC_getitem", "SRC_valid_classes_dyn", "SRC_multiplicity_dyn", "SRC_check_valid",
             "SRC_global_slice_subset", "SRC_changed_class", "SRC_change_class", "SRC_simplify", "SRC_to_content_holds",
-            "SRC_copy_slice_step", "SRC_copy_slice", "SRC_copy_sample_step", "SRC_copy_sample", "SRC_get_subset_content", "SRC_get_subset", "SRC_insert_slice", "SRC_insert_non_slice", "SRC_insert_sample"]
+            "SRC_copy_slice_step", "SRC_copy_slice", "SRC_copy_sample_step", "SRC_copy_sample", "SRC_get_subset_content", "SRC_get_subset", "SRC_insert_slice", "SRC_insert_non_slice", "SRC_insert_sample", "SRC_insert", "SRC_reclassify", "SRC_from_sequence", "SRC_from_sequence_ext", "SRC_valid_inputs", "SRC_merge_hdr", "SRC_top_get_subset", "SRC_top_get_subset_valid", "SRC_top_from_sequence", "SRC_top_from_sequence_valid", "SRC_sideb_sound", "SRC_traj_okb_sound"]
 TABLES = ["t_src_ext", "t_src_filter", "t_src_lookup", "t_src_valid", "t_src_state", "t_classes", "t_ext_tol", "t_content"]
 ALLOWED_AXIOMS = []
 TRUSTED_BASE = ["tools/tables/py2coq.py (+ t_src_ext.py, t_src_filter.py): typed statement translator Python -> Gallina, "
@@ -699,9 +699,14 @@ class State:
     SHARD = 150
     RULE = ("real DcmMetaExtension objects (make_empty on 3-5 D shapes with extents 1..3, every slice dim or none) holding 1-3 keys in random "
             "classes (valid for the shape or stale) with value lists that are constant / constant per period / repeating / arbitrary, of the "
-            "right or a wrong length; `_simplify(key)`, `_change_class(key, new_class)` and `_insert_slice(key, other)` / `_insert_non_slice(key, other)` / `_insert_sample(key, other, base)` / `_insert(dim, other)` (other sometimes with another slice normal) (other: same rank, partly different extents, "
-            "overlapping keys) for present and absent keys: the returned value and the "
-            "WHOLE content dictionary afterwards (key order included) vs the state-passing translation; non-trivial = the content changed")
+            "right or a wrong length; `_simplify(key)`, `_change_class(key, new_class)`, `get_subset(dim, idx)`, `_insert_slice(key, other)` / "
+            "`_insert_non_slice(key, other)` / `_insert_sample(key, other, base)` (other: same rank, partly different extents, overlapping "
+            "keys; present and absent keys): the returned value / exception and the WHOLE content dictionary afterwards (key order included) vs "
+            "the state-passing translation, `other` checked unchanged; `_insert(dim, other)` (other sometimes with another slice normal) and "
+            "`from_sequence(seq, dim, None, slice_dim)` (1-3 inputs, singular or missing along dim, sometimes unfit): these go through a SET "
+            "of keys whose iteration order the translation does not model, so the content is compared up to the order of keys and an "
+            "exception only as 'some exception'; slice normals enter as tokens (equal iff np.allclose), make_empty's content for the result "
+            "is supplied by the run of the real code; non-trivial = the content changed")
 
     @staticmethod
     def gen_cases(rng, tier):
